@@ -791,7 +791,7 @@ def run_form(doc, log):
             ok, rel = close_exact_twin(got2, ref, rtol=1e-11, atol=1e-12 * scale)
             if not ok:
                 raise Violation(PROP, "ref-sum", f"Form assembled again after a worker failure differs from the defining sum (rel {rel:.2e})", site=f"Form.assemble[{kind},after-worker-failure]", fault="thread_body")
-            sim2 = SimThreads(policy="random", rng=Streams(f["coef_seed"] + 7)["sched"], extra_codes=[w_.__code__ for w_ in wfs])
+            sim2 = SimThreads(policy="random", rng=Streams(f["coef_seed"] + 7)["sched"], extra_codes=[w_.__code__ for w_ in wfs], **coarse)
             with sim2:
                 got3 = dense(frm.assemble(parallel=True, **akw))
             ok, rel = close_exact_twin(got3, ref, rtol=1e-11, atol=1e-12 * scale)
